@@ -100,6 +100,10 @@ def run(cx):
             'owner<name': r'^lt:Name\(arg2\.0,\^arg2\)$',
             'name<next or next==soa': r'^lt:Name\(\^arg2,NSEC::next_domain_name\(arg2\.1\)\)$|^eq:Option\(Option::Some\(NSEC::next_domain_name\(arg2\.1\)\),\^arg1\)$'}, fn=c)
         cx.check('C08.G2', len(t) == 2, c.path, 'ret', 'true-return-count', f'{len(t)} true returns, 2 reviewed')
+        # ... and exactly that (the converse clause of the property: the server's own proofs must be accepted): nothing else rejects a record
+        cx.bool_cnf('C08.G2', c, [[r'lt:Name\(arg2\.0,\^arg2\)'],
+                                 [r'lt:Name\(\^arg2,NSEC::next_domain_name\(arg2\.1\)\)', r'eq:Option\(Option::Some\(NSEC::next_domain_name\(arg2\.1\)\),\^arg1\)']],
+                    'covers=owner<name&&(name<next||next==apex)')
 
     # ------------------------------------------------------------ G3 no_closer_matches
     g = cx.fn('C08.G3', N + 'no_closer_matches')
